@@ -48,6 +48,8 @@ type Env struct {
 	now      *Term
 	events   []*Event
 	locks    map[string]bool
+	pools    map[string][]Value
+	poolPriv map[string]Value
 	wgs      map[string]int
 	explore  bool // explore scheduling choices
 	switches int
@@ -58,7 +60,7 @@ func (e *Exec) envInit() {
 		return
 	}
 	g0 := &G{id: 0, wake: make(chan struct{}), started: true, note: "main"}
-	e.env = &Env{gs: []*G{g0}, cur: g0, ack: make(chan struct{}), now: e.tb.Const(64, 0), locks: map[string]bool{}, wgs: map[string]int{}}
+	e.env = &Env{gs: []*G{g0}, cur: g0, ack: make(chan struct{}), now: e.tb.Const(64, 0), locks: map[string]bool{}, wgs: map[string]int{}, pools: map[string][]Value{}, poolPriv: map[string]Value{}}
 }
 
 func (e *Exec) runMain(fn *ssa.Function, args []Value) (Value, *GoPanic) {
